@@ -194,55 +194,24 @@ def mem_plan(mn, ops):
     return plans
 
 
-def addresses(tr, dis, stats, dcache=None):
-    """per step list of effective addresses (tuple), using the disassembly"""
-    data, n, base = tr['data'], tr['n'], tr['base']
-    out = []
-    plan_cache = {}
-    unclassified = 0
-    memops = 0
-    for i in range(n):
-        o = i * 17
-        rip = data[o]
-        off = rip - base
-        pl = plan_cache.get(off)
-        if pl is None:
-            ins = resolve(tr, rip, dcache if dcache is not None else {})
-            if ins is None:
-                pl = 'UNK'
-            else:
-                pl = mem_plan(*ins)
-                if pl is None:
-                    pl = 'UNK'
-            plan_cache[off] = pl
-        if pl == 'UNK':
-            unclassified += 1
-            out.append(('?',))
+def step_addresses(data, o, pl):
+    """effective addresses of the memory operands of the instruction at record offset o, for plan pl"""
+    addrs = []
+    for p in pl:
+        if p == 'STR':
+            addrs += [data[o + RIDX['rsi']], data[o + RIDX['rdi']], data[o + RIDX['rcx']]]
             continue
-        if not pl:
-            out.append(())
-            continue
-        addrs = []
-        for p in pl:
-            if p == 'STR':
-                addrs += [data[o + RIDX['rsi']], data[o + RIDX['rdi']], data[o + RIDX['rcx']]]
-                continue
-            plan, const = p
-            a = const
-            for reg, sc, mask in plan:
-                if reg == 'RIP':
-                    continue   # rip-relative: constant for a given instruction
-                v = data[o + reg]
-                if mask:
-                    v &= 0xffffffff
-                a += v * sc
-            addrs.append(a & 0xffffffffffffffff)
-        memops += len(addrs)
-        out.append(tuple(addrs))
-    stats['unclassified_steps'] = stats.get('unclassified_steps', 0) + unclassified
-    stats['memory_operands_compared'] = stats.get('memory_operands_compared', 0) + memops
-    stats['distinct_rips'] = max(stats.get('distinct_rips', 0), len(plan_cache))
-    return out
+        plan, const = p
+        a = const
+        for reg, sc, mask in plan:
+            if reg == 'RIP':
+                continue   # rip-relative: constant for a given instruction
+            v = data[o + reg]
+            if mask:
+                v &= 0xffffffff
+            a += v * sc
+        addrs.append(a & 0xffffffffffffffff)
+    return addrs
 
 
 def compare(binary, t1, t2, stats):
@@ -262,12 +231,35 @@ def compare(binary, t1, t2, stats):
     # stack pointer sequence (implicit operands of push/pop/call/ret)
     if d1[8::17] != d2[8::17]:
         return 'stack pointer sequences differ'
+    # stream over both traces: same instruction at every step, so one plan serves both
     dc = {}
-    a1 = addresses(t1, dis, stats, dc)
-    a2 = addresses(t2, dis, {}, dc)
+    plan_cache = {}
+    unclassified = 0
+    memops = 0
+    base = t1['base']
     for i in range(n):
-        if a1[i] != a2[i]:
-            ins = dis.get(r1[i] - t1['base'], ('?', ''))
+        o = i * 17
+        rip = d1[o]
+        pl = plan_cache.get(rip)
+        if pl is None:
+            ins = resolve(t1, rip, dc)
+            pl = mem_plan(*ins) if ins is not None else None
+            if pl is None:
+                pl = 'UNK'
+            plan_cache[rip] = pl
+        if pl == 'UNK':
+            unclassified += 1
+            continue
+        if not pl:
+            continue
+        a1 = step_addresses(d1, o, pl)
+        a2 = step_addresses(d2, o, pl)
+        memops += len(a1)
+        if a1 != a2:
+            ins = resolve(t1, rip, dc) or ('?', '')
             return 'data addresses differ at step %d, `%s %s` at %#x: %s vs %s' % (
-                i, ins[0], ins[1], r1[i] - t1['base'], [hex(x) for x in a1[i]], [hex(x) for x in a2[i]])
+                i, ins[0], ins[1], rip - base, [hex(x) for x in a1], [hex(x) for x in a2])
+    stats['unclassified_steps'] = stats.get('unclassified_steps', 0) + unclassified
+    stats['memory_operands_compared'] = stats.get('memory_operands_compared', 0) + memops
+    stats['distinct_rips'] = max(stats.get('distinct_rips', 0), len(plan_cache))
     return None
